@@ -24,6 +24,9 @@ type LongOpts struct {
 	MultiTip    bool // leave several tips at the moment of truncation
 	PostOps     int  // hostile operations after the last truncation
 	Tag         string
+	// Whale: the supply is 2^63 coins and nearly all of it hops through four wallets before anything else happens, so
+	// that the flows summed over all wallets of one checkpoint exceed 2^64 while every single wallet stays below it
+	Whale bool
 	// Interrupt: the first truncation attempt on node 0 is cancelled in the middle of its persisting walk; the
 	// truncations that follow are attempted as usual (the code refuses them: recorded, not judged)
 	Interrupt bool
@@ -95,9 +98,29 @@ func RunLong(w *World, o LongOpts) error {
 		delivery = "delayed"
 	}
 	p := Profile{Name: "long/" + o.Tag, Nodes: o.Nodes, Users: 5, SupplyClass: 0, Delivery: delivery, POverdraft: 0.03, PBoundary: 0.35, PSelf: 0.03, PContract: 0.05}
+	if o.Whale {
+		p.SupplyClass = 5
+	}
 	d, err := Setup(w, p)
 	if err != nil {
 		return err
+	}
+	if o.Whale {
+		from := w.Users[0]
+		amount := uint64(1<<63 - 6000)
+		for i := 0; i < 4; i++ {
+			wh := NewActor(fmt.Sprintf("WH%d", i))
+			w.Extra = append(w.Extra, wh)
+			w.Keys[wh.Addr] = wh.W.Public
+			t := w.NewTrx(from, wh.Addr, spice.Melange{Currency: amount, SupplementaryCurrency: uint64(i)}, nil)
+			if _, err := d.proposeOn(w.Nodes[0], &t, "whale hop"); err != nil {
+				return fmt.Errorf("whale hop %d refused: %v", i, err)
+			}
+			d.flushAll()
+			from = wh
+			amount -= 3
+		}
+		w.Res.Count("c07_whale_hops", 4)
 	}
 	var racer *Actor
 	if o.Race && o.Size > 400 {
